@@ -331,8 +331,10 @@ pub fn netprobe(dir: &str) -> String {
         ring_connect, direct_connect, ring_accept >= 0, alen as u32, u16::from_le_bytes([sa[0], sa[1]]), r >= 0, alen2, u16::from_le_bytes([sa2[0], sa2[1]]), direct_family_len)
 }
 
-/// `refrace <entries>`: on the REAL ring.  `get_next_cqe` advances the shared completion head before the caller
-/// has read the entry it returns a reference to.  Fill the completion ring completely plus one overflowed
+/// `refrace <entries>`: on the REAL ring.  Before /repo bc63d9e `get_next_cqe` advanced the shared completion head
+/// before the caller had read the entry it returns a reference to (held-after-enter differed from held-before-enter,
+/// one completion lost, one reaped twice); now the slot is released by the next call and every completion must be
+/// reaped exactly once.  Fill the completion ring completely plus one overflowed
 /// completion (2*entries + 1 closes of an invalid descriptor, user_data 1..), take the first completion's
 /// reference, let the kernel flush its overflow list (`io_uring_enter(GETEVENTS)`, a safe call that needs
 /// only the copied fd), read through the reference again, then reap the rest.
@@ -368,15 +370,16 @@ pub fn refrace(entries: usize) -> String {
     format!("refrace submitted={} held-before-enter={} held-after-enter={} reaped={:?} exactly-once={}", n, held_before, held_after, reaped, exact)
 }
 
-/// The oldest unreaped completion, copied out BEFORE `get_next_cqe` advances the shared head (what liburing's
-/// peek does; only possible through the `verif_raw_parts` view of the ring pointers, `--cfg tiny_std_verif`).
+/// The oldest unreaped completion, copied out BEFORE `get_next_cqe` is called (what liburing's peek does; only
+/// possible through the `verif_raw_parts` view of the ring pointers, `--cfg tiny_std_verif`).
 #[cfg(tiny_std_verif)]
-fn peek_cqe(ring: &IoUring) -> Option<(u64, i32)> {
+fn peek_cqe(ring: &IoUring, release_pending: bool) -> Option<(u64, i32)> {
     use core::sync::atomic::{fence, Ordering};
     let (p, _) = ring.verif_raw_parts();
     unsafe {
         let tail = core::ptr::read_volatile(p.cq_kernel_tail);
-        let head = core::ptr::read_volatile(p.cq_kernel_head);
+        // the shared head still counts the entry the previous get_next_cqe returned (released by the next call)
+        let head = core::ptr::read_volatile(p.cq_kernel_head).wrapping_add(u32::from(release_pending));
         fence(Ordering::Acquire);
         if tail == head { return None; }
         let c = core::ptr::read_volatile(p.cqes.add((head & p.cq_ring_mask) as usize));
@@ -384,7 +387,7 @@ fn peek_cqe(ring: &IoUring) -> Option<(u64, i32)> {
     }
 }
 #[cfg(not(tiny_std_verif))]
-fn peek_cqe(_ring: &IoUring) -> Option<(u64, i32)> { None }
+fn peek_cqe(_ring: &IoUring, _release_pending: bool) -> Option<(u64, i32)> { None }
 
 /// `overflow <dir> <seed> <rounds> <entries>`: on the REAL ring, the part of the kernel contract the batch run never
 /// reaches: every round submits MORE operations than the completion ring holds (cq_entries + 1 .. cq_entries + 2 *
@@ -408,6 +411,7 @@ pub fn overflow(dir: &str, seed: u64, rounds: usize, entries: usize) -> String {
     let (mut total, mut overflowed, mut inversions, mut max_drain) = (0usize, 0usize, 0usize, 0usize);
     let read_delay: u64 = std::env::var("C18_READ_DELAY_SPINS").ok().and_then(|v| v.parse().ok()).unwrap_or(0);
     let mut ref_overwritten = 0usize;
+    let mut release_pending = false;   // mirrors completion_queue.release_pending (for the peek only)
     let mut first_overwrite = String::new();
     let mut hist: HashMap<&'static str, usize> = HashMap::new();
     for round in 0..rounds {
@@ -461,14 +465,14 @@ pub fn overflow(dir: &str, seed: u64, rounds: usize, entries: usize) -> String {
         while got.len() < n {
             let mut drained = 0usize;
             loop {
-                let peeked = peek_cqe(&ring);
+                let peeked = peek_cqe(&ring, release_pending);
                 let through_ref = match ring.get_next_cqe() {
-                    Some(c) => { for _ in 0..read_delay { core::hint::spin_loop(); } (unsafe { core::ptr::read_volatile(&c.0.user_data) }, unsafe { core::ptr::read_volatile(&c.0.res) }) }
-                    None => break,
+                    Some(c) => { release_pending = true; for _ in 0..read_delay { core::hint::spin_loop(); } (unsafe { core::ptr::read_volatile(&c.0.user_data) }, unsafe { core::ptr::read_volatile(&c.0.res) }) }
+                    None => { release_pending = false; break }
                 };
                 // the completion ring is full here and the kernel posts (overflow flush, task work) whenever this thread
-                // passes through the kernel: what the returned reference shows can already be a LATER completion
-                // (known finding); account with the copy taken before the head moved and count the event
+                // passes through the kernel: before /repo bc63d9e what the returned reference showed could already be a
+                // LATER completion; account with the copy taken before the call and count such an event
                 match peeked {
                     Some(p) if p != through_ref => { ref_overwritten += 1; if first_overwrite.is_empty() { first_overwrite = format!("round {} peeked {:?} reference {:?}", round, p, through_ref); } got.push(p); }
                     _ => got.push(through_ref),
@@ -485,6 +489,7 @@ pub fn overflow(dir: &str, seed: u64, rounds: usize, entries: usize) -> String {
             if spins > 100_000 { return format!("mismatch round {} only {} completions for {} submissions", round, got.len(), n); }
         }
         let _ = io_uring_enter(fd, 0, 0, IoUringEnterFlags::IORING_ENTER_GETEVENTS);
+        release_pending = false;
         if let Some(c) = ring.get_next_cqe() { return format!("mismatch round {} more completions than submissions (extra user_data {})", round, c.0.user_data); }
         if got.len() != n { return format!("mismatch round {} {} completions for {} submissions", round, got.len(), n); }
         total += n;
